@@ -203,6 +203,41 @@ def trigger (F : Flat) (m ev : Nat) (ms : MS) (veto : Bool := false) : MS × TRe
       ({ fs := r.1, cur := fun x => if x = m then d else ms.cur x },
         if r.2 = .raised then .errorState else .ok)
 
+/-- `model.may_<ev>()` / `may_trigger(ev)` (`Machine._can_trigger`, no conditions): is there a transition of
+`ev` from the model's state?  A query: it returns a value and has no state to change — in particular the
+transition table that `get_triggers` (hence `Error.enter`) reads stays as it is. -/
+def may (F : Flat) (m ev : Nat) (ms : MS) : Bool :=
+  (F.trans.find? (fun t => t.ev = ev ∧ t.src = ms.cur m)).isSome
+
+/-- one step of a flat history: a trigger (does an on_exit callback raise?) or a `may_` poll -/
+inductive FStep
+  | trig (m ev : Nat) (veto : Bool)
+  | poll (m ev : Nat)
+  deriving Repr, DecidableEq
+
+def FStep.isPoll : FStep → Bool
+  | .poll _ _ => true
+  | _ => false
+
+def runFlat (F : Flat) : List FStep → MS → MS
+  | [], ms => ms
+  | .trig m ev veto :: r, ms => runFlat F r (trigger F m ev ms veto).1
+  | .poll _ _ :: r, ms => runFlat F r ms
+
+/-! ### `add_state_features`: merged `dynamic_methods`
+
+`method_list = sum([c.dynamic_methods for c in inspect.getmro(CustomState) if hasattr(c, 'dynamic_methods')], [])`,
+`CustomState.dynamic_methods = list(set(method_list))`: the MRO holds the mixins (each inherits `State`'s
+`['on_enter', 'on_exit']`; method names as naturals: 0 `on_enter`, 1 `on_exit`, 2 `on_final`, 3 `on_timeout`) and
+the machine's own state class (`State`, or `NestedState` with `on_final` in addition). -/
+
+def Mixin.methods : Mixin → List Nat
+  | _ => [0, 1]
+
+/-- `CustomState.dynamic_methods` as a set; `base` = `dynamic_methods` of the machine's own state class -/
+def customMethods (feats : List Mixin) (base : List Nat) : List Nat :=
+  ((feats.map Mixin.methods).flatten ++ base ++ [0, 1]).eraseDups
+
 /-! ### observation erasure used by the theorems -/
 
 /-- an observation without object identities: (kind, state, model, hooks present?) -/
